@@ -107,10 +107,13 @@ class SimRaw(io.RawIOBase):
 
 
 def text_reader(data, name="<sim>", plan=None, on_fire=None, encoding="utf-8",
-                errors=None):
+                errors=None, newline=None):
+    """newline: None = universal newlines (what open() gives); "\\n" = only
+    LF ends a line, CR is a character like any other (the standard input of
+    a POSIX process, io.StringIO)."""
     raw = SimRaw(data, name=name, plan=plan, on_fire=on_fire)
     t = io.TextIOWrapper(io.BufferedReader(raw, buffer_size=16),
-                         encoding=encoding, errors=errors)
+                         encoding=encoding, errors=errors, newline=newline)
     return _named(t, name)
 
 
